@@ -10,6 +10,8 @@ import (
 	"os/exec"
 	"path/filepath"
 	"sync/atomic"
+	"time"
+	_ "time/tzdata" // zone database embedded: the sandbox has none of its own
 
 	abci "github.com/tendermint/tendermint/abci/types"
 	tmrpccore "github.com/tendermint/tendermint/rpc/core"
@@ -50,6 +52,9 @@ type NodeIdentity struct {
 	// OtherConfig: run with another node-local configuration file: aggressive pruning of old state
 	// versions (keep the last version only), another log level, other service list and addresses
 	OtherConfig bool
+	// TZ: the operating system's time zone on this node ("" = UTC). time.Local is process-wide; it is set
+	// whenever this replica is activated, like the other process-wide globals.
+	TZ string
 }
 
 // IdentityOf returns the identity of validator i of world w (a validating, witnessing node).
@@ -66,7 +71,7 @@ func NaturalIdentityOf(v *ValSpec) NodeIdentity {
 
 // OutsiderIdentity is a non-validator, non-witness node with keys of its own.
 func OutsiderIdentity() NodeIdentity {
-	return NodeIdentity{Name: "outsider", Node: NewAccount("outsider-node"), Val: NewAccount("outsider-val"), Ecdsa: NewSecpAccount("outsider-ecdsa"), OLTEST: "1", OtherConfig: true}
+	return NodeIdentity{Name: "outsider", Node: NewAccount("outsider-node"), Val: NewAccount("outsider-val"), Ecdsa: NewSecpAccount("outsider-ecdsa"), OLTEST: "1", OtherConfig: true, TZ: "America/New_York"}
 }
 
 // TxRes is the consensus-relevant part of a DeliverTx/CheckTx response.
@@ -207,8 +212,23 @@ func (r *Replica) open() error {
 	return nil
 }
 
+var zones = map[string]*time.Location{"": time.UTC}
+
+func zoneOf(name string) *time.Location {
+	if l, ok := zones[name]; ok {
+		return l
+	}
+	l, err := time.LoadLocation(name)
+	if err != nil {
+		panic("time zone " + name + ": " + err.Error())
+	}
+	zones[name] = l
+	return l
+}
+
 // activate points the process-wide globals at this replica. Called before every ABCI call.
 func (r *Replica) activate() {
+	time.Local = zoneOf(r.ID.TZ)
 	tmrpccore.SetTxIndexer(r.Index)
 	verifseam.Use(r.Seam)
 	if r.ID.Natural {
